@@ -55,23 +55,7 @@ func requireOnSuccessIdx(c *fw.Ctx, rule, fname string, fn *ssa.Function, idx in
 		return
 	}
 	c.SawFn(fw.FuncName(fn))
-	// checks moved into unexported helpers are looked up inside the helpers
-	t.ExpandUnknown(func(atom string) bool {
-		if !fw.AtomCallsUnexportedHelper(atom) {
-			return true
-		}
-		for _, n := range needs {
-			for _, l := range n.alts {
-				if containsAll(atom, l.subs...) {
-					return true
-				}
-				if sw := swapEq(atom); sw != "" && containsAll(sw, l.subs...) {
-					return true
-				}
-			}
-		}
-		return false
-	})
+	expandHelpersForNeeds(t, needs)
 	var succ []fw.Row
 	for _, r := range t.Rows {
 		if r.Outcome == "accept" {
@@ -100,6 +84,28 @@ func requireOnSuccessIdx(c *fw.Ctx, rule, fname string, fn *ssa.Function, idx in
 		}
 		c.Check(bad == "", rule, fname+": success requires "+n.what, c.P.Pos(fn.Pos()), "", fmt.Sprintf("the success return at %s is reachable on a path that does not establish: %s", bad, n.what))
 	}
+}
+
+// expandHelpersForNeeds: checks moved into unexported helpers are looked up inside the helpers
+// (atoms that test a helper's result and that no need mentions are replaced by the helper's own
+// conditions).
+func expandHelpersForNeeds(t *fw.Table, needs []need) {
+	t.ExpandUnknown(func(atom string) bool {
+		if !fw.AtomCallsUnexportedHelper(atom) {
+			return true
+		}
+		for _, n := range needs {
+			for _, l := range n.alts {
+				if containsAll(atom, l.subs...) {
+					return true
+				}
+				if sw := swapEq(atom); sw != "" && containsAll(sw, l.subs...) {
+					return true
+				}
+			}
+		}
+		return false
+	})
 }
 
 func nd(what string, pos bool, subs ...string) need { return need{what, []lit{{subs, pos}}} }
@@ -169,9 +175,28 @@ func checkC15(c *fw.Ctx) {
 		}, 1)
 		// what is verified
 		for f, want := range map[string][]string{"Message": {".RedactEventJSON(", ".JSON(" + ev + ")"}, "AtTS": {".OriginServerTS(" + ev + ")"}, "ValidityCheckingFunc": {"func:gmsl.StrictValiditySignatureCheck"}, "ServerName": {"phi(", ".Domain(dyn(*&param:input.UserIDQuerier)("}} {
-			stores := fw.FieldStores(fn, "VerifyJSONRequest", f)
-			ok := len(stores) == 1 && containsAll(fw.Sig(stores[0].Val), want...)
-			c.Check(ok, "3 send_join", "the signature check covers "+f+" = "+strings.Join(want, " "), c.P.Pos(fn.Pos()), "", fmt.Sprintf("%d stores or unexpected value", len(stores)))
+			stores := deepFieldStores(fn, "VerifyJSONRequest", f)
+			construct := "the signature check covers " + f + " = " + strings.Join(want, " ")
+			okAny, resolvedAll := false, len(stores) > 0
+			var sigs []string
+			for _, ds := range stores {
+				sg := fw.SigIn(ds.Fr, ds.St.Val)
+				sigs = append(sigs, sg)
+				if containsAll(sg, want...) {
+					okAny = true
+				}
+				if strings.Contains(sg, "...") || strings.Contains(sg, "param:") && ds.Fr != nil && !strings.Contains(sg, "param:input") {
+					resolvedAll = false
+				}
+			}
+			switch {
+			case okAny:
+				c.Ok("3 send_join", construct, c.P.Pos(fn.Pos()), strings.Join(sigs, " | "))
+			case resolvedAll && len(stores) == 1:
+				c.Fail("3 send_join", construct, c.P.Pos(fw.InstrPos(stores[0].St)), "the request is built with "+f+" = "+sigs[0])
+			default:
+				c.Undecided("3 send_join", construct, fmt.Sprintf("%d stores: %s", len(stores), strings.Join(sigs, " | ")))
+			}
 		}
 		// every returned JoinEvent is the counter-signed checked event
 		stores := fw.FieldStores(fn, "HandleSendJoinResponse", "JoinEvent")
@@ -199,6 +224,7 @@ func checkC15(c *fw.Ctx) {
 				nd("signature verification ran without error", true, ".VerifyJSONs(", "#1 == nil)"),
 				nd("the sender's server validly signed the invite", true, ".VerifyJSONs(", "#0[0].Error == nil)"),
 			}
+			expandHelpersForNeeds(t, needs)
 			n := 0
 			for _, r := range t.Rows {
 				if r.Outcome != "call:gmsl.handleInviteCommonChecks" {
@@ -229,9 +255,28 @@ func checkC15(c *fw.Ctx) {
 			c.Min("4 invite tail sites", n, 1)
 		}
 		for f, want := range map[string][]string{"Message": {".RedactEventJSON(", ".JSON(" + inv + ")"}, "AtTS": {".OriginServerTS(" + inv + ")"}, "ValidityCheckingFunc": {"func:gmsl.StrictValiditySignatureCheck"}, "ServerName": {".Domain(dyn(*&param:input.UserIDQuerier)("}} {
-			stores := fw.FieldStores(fn, "VerifyJSONRequest", f)
-			ok := len(stores) == 1 && containsAll(fw.Sig(stores[0].Val), want...)
-			c.Check(ok, "4 invite", "the signature check covers "+f+" = "+strings.Join(want, " "), c.P.Pos(fn.Pos()), "", fmt.Sprintf("%d stores or unexpected value", len(stores)))
+			stores := deepFieldStores(fn, "VerifyJSONRequest", f)
+			construct := "the signature check covers " + f + " = " + strings.Join(want, " ")
+			okAny, resolvedAll := false, len(stores) > 0
+			var sigs []string
+			for _, ds := range stores {
+				sg := fw.SigIn(ds.Fr, ds.St.Val)
+				sigs = append(sigs, sg)
+				if containsAll(sg, want...) {
+					okAny = true
+				}
+				if strings.Contains(sg, "...") || strings.Contains(sg, "param:") && ds.Fr != nil && !strings.Contains(sg, "param:input") {
+					resolvedAll = false
+				}
+			}
+			switch {
+			case okAny:
+				c.Ok("4 invite", construct, c.P.Pos(fn.Pos()), strings.Join(sigs, " | "))
+			case resolvedAll && len(stores) == 1:
+				c.Fail("4 invite", construct, c.P.Pos(fw.InstrPos(stores[0].St)), "the request is built with "+f+" = "+sigs[0])
+			default:
+				c.Undecided("4 invite", construct, fmt.Sprintf("%d stores: %s", len(stores), strings.Join(sigs, " | ")))
+			}
 		}
 	}
 	if fn := mustFunc(c, "4 invite", "handleInviteCommonChecks"); fn != nil {
@@ -283,6 +328,7 @@ func checkC15(c *fw.Ctx) {
 				nd("a sender ID was obtained", true, "dyn(*&param:input.GetOrCreateSenderID)(", "#2 == nil)"),
 				nd("the invite event was built", true, ".Build(", "#1 == nil)"),
 			}
+			expandHelpersForNeeds(t, needs)
 			n := 0
 			for _, r := range t.Rows {
 				if r.Outcome != "call:gmsl.handleInviteCommonChecks" {
@@ -404,6 +450,60 @@ func checkPerformJoin(c *fw.Ctx) {
 		nd("the auth chain contains a create event of a known version", true, "gmsl.checkEventsContainCreateEvent(", " == nil)"),
 		nd("the federation-response checks passed", true, "gmsl.CheckSendJoinResponse(", "#1 == nil)"),
 	}, 1)
+	// the join event that is returned is the one the response checks were run on (apart from the
+	// unsigned data set afterwards): an event adopted after the checks is returned unchecked
+	var checked []ssa.Value
+	for _, call := range fw.CallsTo(fn, false, fw.NameIs("gmsl.CheckSendJoinResponse")) {
+		if len(call.Common().Args) > 4 {
+			checked = append(checked, call.Common().Args[4])
+		}
+	}
+	for _, ds := range deepFieldStores(fn, "PerformJoinResponse", "JoinEvent") {
+		if len(checked) == 0 || ds.Fr != nil {
+			c.Undecided(rule, "the returned join event is the one that was checked against the response", "the call of CheckSendJoinResponse or the construction of the result was not recognised")
+			continue
+		}
+		isChecked := func(v ssa.Value) bool {
+			for _, w := range checked {
+				if v == w {
+					return true
+				}
+			}
+			return false
+		}
+		// the alternatives of the returned value (phi operands, looking through SetUnsigned)
+		var other []string
+		seen := map[ssa.Value]bool{}
+		var walk func(v ssa.Value)
+		walk = func(v ssa.Value) {
+			if seen[v] {
+				return
+			}
+			seen[v] = true
+			if isChecked(v) {
+				return
+			}
+			switch x := v.(type) {
+			case *ssa.Phi:
+				for _, e := range x.Edges {
+					walk(e)
+				}
+				return
+			case *ssa.Extract:
+				if cl, ok := x.Tuple.(*ssa.Call); ok && strings.HasSuffix(fw.CalleeName(cl), ".SetUnsigned") {
+					if cl.Call.IsInvoke() {
+						walk(cl.Call.Value)
+					} else if len(cl.Call.Args) > 0 {
+						walk(cl.Call.Args[0])
+					}
+					return
+				}
+			}
+			other = append(other, fw.Sig(v))
+		}
+		walk(ds.St.Val)
+		c.Check(len(other) == 0, rule, "the returned join event is the one that was checked against the response", c.P.Pos(fw.InstrPos(ds.St)), "", "PerformJoin can return "+strings.Join(other, " / ")+", which was not handed to CheckSendJoinResponse: a join event supplied by the remote server is adopted after the checks ran")
+	}
 	// a remote-supplied join event replaces the local one only if well formed
 	for _, b := range fn.Blocks {
 		for _, ins := range b.Instrs {
